@@ -20,7 +20,10 @@ RULE = ("one execution = one response with rewritten time bounds delivered under
         "under test, side, offset, allowance, spelling, subset of optional bounds present, signed or not)")
 ASSUMPTIONS = ["instants exactly equal to a bound are not generated (unspecified)",
                "timestamps with a numeric zone offset are only used on the reject side (SAML requires UTC; the library does not read offsets)",
-               "virtual clock: every time source of the saml2_tophat modules is replaced (vlib/clock.py)"]
+               "virtual clock: every time source of the saml2_tophat modules is replaced (vlib/clock.py)",
+               "resolution is one second: the library reads the clock and every bound in whole seconds (fractions are dropped), the virtual clock "
+               "moves in whole seconds and every generated violation is at least one second beyond its edge; orderings that differ only inside one "
+               "second (NotBefore=T.9 with NotOnOrAfter=T.1, remarked by a round-5 sub-agent) are outside what is asserted"]
 
 T0 = 1700000000
 DAY = 86400
